@@ -203,19 +203,78 @@ func c09RandPolicy(rng interface{ Intn(int) int }, mqtt bool) ([]int, time.Durat
 	return []int{L}, P, T
 }
 
+// c09RandMultiPolicy: MultiRateLimiter with a timeout > 0: 2 or 3 dimensions, each either a small
+// "request" budget or a large "byte" budget, in any order; timeouts below, at and above the
+// period, multiples and non-multiples of it.
+func c09RandMultiPolicy(rng interface{ Intn(int) int }) ([]int, time.Duration, time.Duration) {
+	periods := []time.Duration{time.Millisecond, 10 * time.Millisecond, 250 * time.Millisecond, time.Second, 7300 * time.Microsecond}
+	P := periods[rng.Intn(len(periods))]
+	var T time.Duration
+	switch rng.Intn(7) {
+	case 0:
+		T = P / 3
+	case 1:
+		T = P
+	case 2:
+		T = 2 * P
+	case 3:
+		T = 2*P + P/2
+	case 4:
+		T = time.Duration(1+rng.Intn(6))*P + time.Duration(rng.Intn(int(P/time.Microsecond)))*time.Microsecond
+	case 5:
+		T = 10 * P
+	case 6:
+		T = 3*P - time.Microsecond
+	}
+	T = T.Truncate(time.Microsecond)
+	L := make([]int, 2+rng.Intn(2))
+	for i := range L {
+		if rng.Intn(2) == 0 {
+			L[i] = 1 + rng.Intn(5)
+		} else {
+			L[i] = 20 + rng.Intn(200)
+		}
+	}
+	return L, P, T
+}
+
+// c09MultiCount: one token of a small budget (now and then more), a "packet" of up to the whole
+// period's budget of a large one (now and then several periods' worth).
+func c09MultiCount(rng interface{ Intn(int) int }, L []int) []int {
+	n := make([]int, len(L))
+	for i := range n {
+		switch {
+		case L[i] <= 5 && rng.Intn(6) == 0:
+			n[i] = 1 + rng.Intn(L[i])
+		case L[i] <= 5:
+			n[i] = 1
+		case rng.Intn(15) == 0:
+			n[i] = L[i] + rng.Intn(2*L[i])
+		default:
+			n[i] = 1 + rng.Intn(L[i])
+		}
+	}
+	return n
+}
+
 // TestVerifC09Trace: seeded random arrival processes (bursts, sparse arrivals, arrivals exactly on
 // and just before cycle boundaries, idle gaps spanning many periods) over random time.Duration
-// policies (timeout 0, < period, not a multiple of the period, ...). VERIF_FAMILY=mqtt: timeout 0,
-// request / byte / request+byte limiters with packet sizes as token counts.
+// policies (timeout 0, < period, not a multiple of the period, ...). VERIF_MQTT=1: timeout 0,
+// request / byte / request+byte limiters with packet sizes as token counts. VERIF_MQTT=2:
+// MultiRateLimiter with 2-3 dimensions and a timeout > 0 (only the wait bound is judged).
 func TestVerifC09Trace(t *testing.T) {
 	w := vx.NewWriter(t, "VERIF_OUT")
 	defer w.Close()
 	mqtt := vx.EnvInt("VERIF_MQTT", 0) == 1
+	multi := vx.EnvInt("VERIF_MQTT", 0) == 2 // MultiRateLimiter with a timeout > 0
 	rng := vx.Rand(909 + int64(vx.EnvInt("VERIF_MQTT", 0)))
 	nTraces := vx.EnvInt("VERIF_N", 40)
 	nArr := vx.EnvInt("VERIF_STEPS", 200)
 	for ti := 0; ti < nTraces; ti++ {
 		L, P, T := c09RandPolicy(rng, mqtt)
+		if multi {
+			L, P, T = c09RandMultiPolicy(rng)
+		}
 		clk := c09InstallClock(time.Duration(rng.Int63n(int64(time.Hour))))
 		lim := c09New(L, P, T)
 		w.Emit(vx.M{"ev": "reset", "pol": vx.M{"L": L, "P": c09Us(P), "T": c09Us(T)}})
@@ -224,7 +283,7 @@ func TestVerifC09Trace(t *testing.T) {
 		if mqtt && ti%2 == 0 {
 			mode = 5
 		}
-		setState := !mqtt && rng.Intn(10) == 0
+		setState := !mqtt && !multi && rng.Intn(10) == 0
 		disabled := false
 		for a := 0; a < nArr && clk.Since() < 1500000000; a++ {
 			if rng.Intn(25) == 0 && mode != 5 {
@@ -297,6 +356,9 @@ func TestVerifC09Trace(t *testing.T) {
 				} else if L[0] >= 20 {
 					n[0] = bytes
 				}
+			}
+			if multi {
+				n = c09MultiCount(rng, L)
 			}
 			ok, d := lim.acquire(n)
 			w.Emit(vx.M{"ev": "arr", "t": clk.Since(), "n": n, "ok": ok, "w": c09Us(d)})
